@@ -223,7 +223,7 @@ class HashSeedEngine(Engine):
                            "subs": subs}}
 
     def _gen_pipeline(self, rng) -> Dict[str, Any]:
-        from sim.world.pipeline import DETECTION_PROFILES, DOMAIN_PROFILES
+        from sim.world.pipeline import DETECTION_PROFILES, DOMAIN_PROFILES, MAIN_DOMAINS
         records = []
         hits = []
         domain_hits = []
@@ -267,7 +267,7 @@ class HashSeedEngine(Engine):
                             domain_hits.append({"cds": gene["name"], "profile": name, "bitscore": rng.choice([100, 100, 200]),
                                                 "evalue": 1e-20, "start": offset, "end": offset + width})
                             if rng.random() < 0.2:  # a competing hit with the same start and score
-                                domain_hits.append({"cds": gene["name"], "profile": rng.choice(sorted(DOMAIN_PROFILES)),
+                                domain_hits.append({"cds": gene["name"], "profile": rng.choice(MAIN_DOMAINS),
                                                     "bitscore": domain_hits[-1]["bitscore"], "evalue": 1e-20,
                                                     "start": offset, "end": offset + width})
                             offset += width + rng.choice([0, 5])
@@ -277,10 +277,17 @@ class HashSeedEngine(Engine):
                     hits.append({"cds": gene["name"], "profile": rng.choice(profiles), "bitscore": 600, "evalue": 1e-30,
                                  "start": 1, "end": 60, "qstart": 1, "qend": 60})
         lengths = {name: 60 for name in DOMAIN_PROFILES}
+        # KS subtypes: hits of the subtype database inside PKS_KS domains become internal hits
+        subtype_hits = []
+        for hit in domain_hits:
+            if hit["profile"] == "PKS_KS" and rng.random() < 0.7:
+                subtype_hits.append({"cds": hit["cds"], "profile": rng.choice(["Hybrid-KS", "Modular-KS", "Iterative-KS", "Enediyne-KS"]),
+                                     "bitscore": rng.choice([90, 90, 150]), "evalue": 1e-15,
+                                     "start": hit["start"] + rng.choice([0, 2]), "end": hit["end"] - rng.choice([0, 3])})
         extra: List[str] = []
         if rng.random() < 0.3:
             extra += ["--hmmdetection-strictness", rng.choice(["strict", "loose"])]
-        return {"records": records, "hits": hits, "domain_hits": {"nrpspksdomains.hmm": domain_hits},
+        return {"records": records, "hits": hits, "domain_hits": {"nrpspksdomains.hmm": domain_hits, "ksdomains.hmm": subtype_hits},
                 "domain_lengths": lengths, "extra_args": extra}
 
     # ------------------------------------------------------------ children
